@@ -248,7 +248,7 @@ class Obs:
                 if isinstance(self.idl[r_name], range):
                     r_length.append(len(self.idl[r_name]) * self.idl[r_name].step // gapsize)
                 else:
-                    r_length.append((self.idl[r_name][-1] - self.idl[r_name][0] + 1) // gapsize)
+                    r_length.append((self.idl[r_name][-1] - self.idl[r_name][0] + gapsize) // gapsize)
 
             e_N = np.sum([self.shape[r_name] for r_name in e_content[e_name]])
             w_max = max(r_length) // 2
